@@ -251,7 +251,7 @@ impl Prop for GraphProp {
             Which::C03 => PropMeta {
                 id: "C03",
                 level: "exploration",
-                rule: "cases = (digraph incl. cycles and self-loops, input list, completion order). Exhaustive scope: every digraph on <=3 files x every requested subset x input variants {plain names; aliases (source name, ./x, d/../x, absolute) plus a duplicate of one file under another name; the containing directory alone / together with a file} x every completion order (DFS). Sampled: generated graphs of 2-6 files in nested directories, alias/duplicate/directory inputs, recursive on/off, random schedules, pool sizes {1,2,3,full}, free-running. Oracle: the run returns (logical deadlock detection at the coordinator's idle poll, no clock); success only if no required file reaches a cycle; on success every required output exists and equals the model; marker files: every command in a dependency-free file and every command after a dependency directive ran exactly once (commands before the first dependency directive of a file with dependencies: 1..2); trace: exactly one first pass and at most one second pass per required file, none for other files. Non-trivial = >=2 required files and (alias/duplicate/directory input or shared dependency) and a branching step.",
+                rule: "cases = (digraph incl. cycles and self-loops, input list, completion order). Exhaustive scope: every digraph on <=3 files x every requested subset x input variants {plain names; aliases (source name, ./x, d/../x, absolute) plus a duplicate of one file under another name; the containing directory alone / together with a file} x every completion order (DFS). Sampled: generated graphs of 2-6 files in nested directories, alias/duplicate/directory inputs, recursive on/off, random schedules, pool sizes {1,2,3,full}, free-running. Oracle: the run returns (logical deadlock detection at the coordinator's idle poll, no clock); success only if no required file reaches a cycle; on success every required output exists and equals the model; marker files: every command in a dependency-free file and every command after a dependency directive ran exactly once (commands before the first dependency directive of a file with dependencies: 1..2); trace: exactly one first pass and at most one second pass per required file, none for other files. A last tier takes acyclic DAGs with one faulty file (the fault cases of C04, every mode, controlled and free schedules) and only requires that the run returns. Non-trivial = >=2 required files and (alias/duplicate/directory input or shared dependency) and a branching step.",
                 assumptions: vec!["hooks: feature `verif`; a hang inside a task (not the coordinator) is only caught by the orchestrator's clock backstop"],
                 hang_is_violation: true,
                 needs_cli: false,
@@ -381,12 +381,28 @@ impl Prop for GraphProp {
             let red = |_c: &super::c04::Case| -> Vec<super::c04::Case> { vec![] };
             ctx.drive(4, n, 200, &gen, &chk, &red);
         }
+        if which == Which::C03 && ctx.stats.violations.is_empty() {
+            // "for every project ... the run terminates": also when one file fails (C04's fault
+            // cases; only the return is judged here)
+            let n = ctx.share(if ctx.quick { 3_000 } else { 60_000 });
+            let gen = |c: &mut Choices| super::c04::gen_directive_case(c);
+            let chk = |c: &super::c04::Case, st: &mut Stats| -> Check {
+                st.class("one_file_fails_run_returns");
+                super::c04::check_terminates(c, st)
+            };
+            let red = |_c: &super::c04::Case| -> Vec<super::c04::Case> { vec![] };
+            ctx.drive(5, n, 200, &gen, &chk, &red);
+        }
     }
 
     fn replay(&self, case: &Value) -> Check {
         if case.get("Directive").is_some() {
             let c: super::c04::Case = serde_json::from_value(case.clone()).map_err(|e| (format!("bad case: {e}"), "bad-case".to_string()))?;
-            return super::c04::check_cycle_misreport(&c, &mut Stats::default());
+            return if self.0 == Which::C03 {
+                super::c04::check_terminates(&c, &mut Stats::default())
+            } else {
+                super::c04::check_cycle_misreport(&c, &mut Stats::default())
+            };
         }
         let case: GraphCase = serde_json::from_value(case.clone()).map_err(|e| (format!("bad case: {e}"), "bad-case".to_string()))?;
         check_once(&case, self.0, &mut Stats::default())
